@@ -207,7 +207,7 @@ def parse_result(out):
     return json.loads(s)
 
 
-def split_trace(files, nchunks, outdir, reset_key='"kind":"reset"', prefix="chunk"):
+def split_trace(files, nchunks, outdir, reset_key='"kind":"reset"', prefix="chunk", independent=False):
     """split NDJSON trace files into <= nchunks files at run boundaries (reset lines).
     returns list of (chunkfile, [(srcfile, first line number (1-based) in src, count)])"""
     groups = []  # (src, startline, [lines])
@@ -215,7 +215,7 @@ def split_trace(files, nchunks, outdir, reset_key='"kind":"reset"', prefix="chun
         cur, start = None, 0
         with open(src) as f:
             for ln, line in enumerate(f, 1):
-                if reset_key in line:
+                if independent or reset_key in line:
                     if cur:
                         groups.append((src, start, cur))
                     cur, start = [], ln
@@ -257,13 +257,13 @@ def locate(cmap, line):
     return None, None, None
 
 
-def validate(work, files, module, props, constants=None, timeout=1800, maxviol=40, nchunks=None, heap=None):
+def validate(work, files, module, props, constants=None, timeout=1800, maxviol=40, nchunks=None, heap=None, independent=False):
     """run the trace specification `module` over the NDJSON files, in parallel chunks.
     returns dict(lines, viol=[{clause, chunk, line, src, srcline, resetline}], drift=[...], cnt={...})"""
     d = work.sub("val")
     spec_copy(d)
     nchunks = nchunks or NCPU
-    chunks = split_trace(files, nchunks, d)
+    chunks = split_trace(files, nchunks, d, independent=independent)
     agg = {"lines": 0, "viol": [], "drift": [], "cnt": {}, "chunks": len(chunks), "tlc_s": 0.0}
     if not chunks:
         return agg
